@@ -298,6 +298,7 @@ class Pipeline:
         self.table = Table(self.grammar)
         self.gen_mod = src.mod("codegen/python/python_generator.py")
         self.gen_cls = self.gen_mod.get_class("PythonCodeGen")
+        A.TOKEN_LANGUAGE["fn"] = self.token_may_be
         self.token_kinds = self._token_kinds()
         first = self.grammar.by_name(self.grammar.start)[0].syms[0] if self.grammar.by_name(self.grammar.start) else None
         cands = [pr.syms[1] for pr in self.grammar.by_name(first) if len(pr.syms) == 2 and pr.syms[1] in self.grammar.terminals] if first else []
@@ -365,6 +366,41 @@ class Pipeline:
                 kinds[r.name] = ("dropped", None)
         return kinds
 
+    def token_may_be(self, ttype: str, text: str):
+        """Can the matched text of token `ttype` be `text`?  (None: unknown token.)"""
+        import re as _re
+        r = self.main_lexer.rule(ttype.split(".")[0].split("[")[0])
+        if r is None or r.pattern is None:
+            return None
+        try:
+            return _re.fullmatch(r.pattern, text) is not None
+        except _re.error:
+            return None
+
+    def token_text(self, ttype: str):
+        """The value of a token whose rule has no action (its matched text), for an action that reads it: the spelling
+        itself when the pattern is a literal (optionally followed by a word boundary), otherwise an opaque text (the
+        spelling varies, e.g. with the white space inside `not   in`)."""
+        cache = self.__dict__.setdefault("_token_text", {})
+        if ttype not in cache:
+            import re._parser as sp_
+            val = A.Sym("rawtoken", ttype)
+            r = self.main_lexer.rule(ttype)
+            remapped = [(rule, lit) for rule, lit, new in self.main_lexer.remaps if new == ttype and lit is not None]
+            if r is not None and r.func is None:
+                try:
+                    items = list(sp_.parse(r.pattern))
+                    while items and items[-1][0] == sp_.AT and items[-1][1] == sp_.AT_BOUNDARY:
+                        items.pop()
+                    if items and all(op == sp_.LITERAL for op, _ in items):
+                        val = A.Tmpl.lit("".join(chr(av) for _, av in items))
+                except Exception:  # noqa: BLE001
+                    pass
+            elif r is None and len(remapped) == 1:
+                val = A.Tmpl.lit(remapped[0][1])
+            cache[ttype] = val
+        return cache[ttype]
+
     # -- grammar actions ---------------------------------------------------
     def parse_to_ast(self, toks: list, interp: A.Interp):
         tree = self.table.parse([t.type for t in toks])
@@ -375,7 +411,8 @@ class Pipeline:
         def ev(node):
             head, kids = node
             if isinstance(head, str):       # terminal leaf: (type, position)
-                return toks[kids].value
+                v = toks[kids].value
+                return v if v is not None else self.token_text(head)
             prod = self.grammar.prods[head]
             vals = [ev(k) for k in kids]
             if prod.index == 0:
@@ -917,6 +954,8 @@ class Family:
             ("tuple", [("id", b.ident("t_id")), ("lit", b.string(), False)]),
             ("tuple", [("tuple", [("lit", b.integer(), False), ("lit", b.string(), False)]), ("lit", b.integer(), False)]),
             ("tuple", [("tuple", [("tuple", [("id", b.ident("deep_id"))])]), ("lit", b.string(), False)]),
+            ("tuple", [("lit", b.string(), False)]),                       # one-element tuple of a string (which may contain ',')
+            ("tuple", [("tuple", [("lit", b.integer(), False), ("lit", b.integer(), False)])]),   # one-element tuple of a tuple
         ]
         for i, t in enumerate(terms):
             yield self.prog(("if", [("cmp", "KW_IN" if t[0] == "tuple" else "KW_EQ", ("id", b.ident("c0")), t)],
@@ -948,6 +987,10 @@ class Family:
                             f"nested-in-elif {nm}")
             yield self.prog(("if", [c()], g(1), ("elif", [c(name="e0")], inner, None)), False, ("a",),
                             f"nested-in-elif {nm} no outer else")
+        # the same return statement written in several branches (identical literals: the same symbols)
+        same = g(2)
+        yield self.prog(("if", [c()], same, ("elif", [c(name="e0")], g(1), ("else", same))), True, ("a",),
+                        "return statement repeated in two branches")
         deep = g(1)
         for d in range(3 if self.tier == "quick" else 8):
             deep = ("if", [c(name=f"d{d}")], deep, None if d % 2 else ("else", g(1)))
@@ -1049,6 +1092,9 @@ class Family:
                    ("if", [("cmp", "KW_GT", ("id", only), ("lit", b.integer(), False))], self.groups(1), None),
                    "single field shared")
         yield Prog(b.ident("e3"), None, [b.ident("dup"), b.ident("dup")], self.groups(1), "duplicate splitter declaration")
+        yield Prog(b.ident("e3b"), b.string("salt"), [b.ident("user_id"), b.ident("device_id"), b.ident("user_id")],
+                   ("if", [("cmp", "KW_EQ", ("id", b.ident("cond_only")), ("lit", b.integer(), False))], self.groups(1), ("else", self.groups(2))),
+                   "duplicate splitter declaration + condition-only field")
         # names that differ only in case, declared in both orders (a case-insensitive sort ties on them)
         for order in (("Uid", "uid"), ("uid", "Uid")):
             yield Prog(b.ident("e_case"), b.string("salt"), [b.ident(order[0]), b.ident(order[1])], self.groups(2),
